@@ -37,8 +37,10 @@ import (
 // unintended behavior in codec activity elsewhere in the program.
 type Session struct {
 	iteratorFuncs sync.Map
-	config        *configuration.Configuration
-	context       Context
+	// Types whose iterator was generated (not inherited or registered) by this session.
+	generatedTypes sync.Map
+	config         *configuration.Configuration
+	context        Context
 }
 
 // Start a new iterator session. It will inherit the iterators of its parent.
@@ -111,12 +113,20 @@ func (_this *Session) GetIteratorForType(t reflect.Type) IteratorFunction {
 	if loaded {
 		return storedIterator.(IteratorFunction)
 	}
+	_this.generatedTypes.Store(t, true)
 
 	defer func() {
 		if iterator == nil {
 			// Generating the iterator failed (panicked). Don't leave the
 			// placeholder behind: it would block every later user of this type.
-			_this.iteratorFuncs.Delete(t)
+			// Iterators that were generated while this one was in progress
+			// (pointer to, slice of, map of this type...) have captured the
+			// placeholder, so drop everything this session has generated.
+			_this.generatedTypes.Range(func(key, value interface{}) bool {
+				_this.iteratorFuncs.Delete(key)
+				_this.generatedTypes.Delete(key)
+				return true
+			})
 			iterator = func(*Context, reflect.Value) {
 				panic(fmt.Errorf("no iterator could be generated for type %v", t))
 			}
